@@ -841,7 +841,20 @@ func (e *specEnv) call(n *ast.CallExpr) SV {
 // ghostSeq returns the ghost byte sequence attached to a reader/writer value.
 func (x *Exec) ghostSeq(st *State, v Val, kind string) (string, bool) {
 	switch u := v.(type) {
+	case nil:
+		// spec expressions are total: the stream of a nil interface is unspecified
+		x.w.Decl("(declare-fun g_nostream () " + SSeqI + ")")
+		return "g_nostream", true
+	case TV:
+		// a buffer held by value (e.g. `type efibytes bytes.Buffer` inside an interface)
+		if d := x.w.DTByName(u.S); d != nil && u.S == "T_bytes_Buffer" {
+			return d.Get(0, u.E), true
+		}
 	case IfaceV:
+		if u.Sym == "" && u.Payload == nil && u.Dyn == nil {
+			x.w.Decl("(declare-fun g_nostream () " + SSeqI + ")")
+			return "g_nostream", true
+		}
 		if u.Sym != "" {
 			if g, ok := st.ghost[kind+":"+u.Sym]; ok {
 				return g.(TV).E, true
@@ -859,6 +872,9 @@ func (x *Exec) ghostSeq(st *State, v Val, kind string) (string, bool) {
 		if u.Ref != "" && len(u.Path) == 0 {
 			switch ghostFor(u.Elem) {
 			case "bytes.Buffer":
+				d := x.w.DTByName(u.RootSort)
+				return d.Get(0, st.heapSelect(u.RootSort, u.Ref)), true
+			case "cryptobyte.Builder": // out(b): what has been added to the builder so far
 				d := x.w.DTByName(u.RootSort)
 				return d.Get(0, st.heapSelect(u.RootSort, u.Ref)), true
 			case "bytes.Reader", "io.SectionReader":
